@@ -268,8 +268,9 @@ OpenWriter(op) ==
 
 WriteChunk(op) ==
     /\ Has(hd, op.h) /\ hd[op.h].kind = "writer"
-    /\ IF hd[op.h].closed
-       THEN res' = Err("IoOther") /\ UNCHANGED hd
+    /\ IF hd[op.h].closed /\ (op.len > 0 \/ ~op.all)
+       THEN res' = Err("IoOther") /\ UNCHANGED hd       \* "file closed"
+            \* (write_all of an empty buffer never reaches the writer: Ok even when closed)
        ELSE /\ hd' = [hd EXCEPT ![op.h].n = @ + op.len]
             /\ res' = Ok(op.len)
     /\ UNCHANGED disk
